@@ -151,7 +151,7 @@ func verifC12RData() {
 		k = 6
 	}
 	rd := vBytes(vInt(0, k))
-	hdr := []byte{0, 0, 0x81, 0x80, 0, 0, 0, 0, 0, 0, 0, 0}
+	hdr := []byte{0, 0, 0x81, 0x80, 0, 0, 0, 0, 0, 0, 0, 0} // (flags concrete: names in RDATA may point into the header)
 	sec := vInt(0, 2) // the record sits in the answer, authority or additional section
 	hdr[7+2*sec] = 1
 	// the class is symbolic: the Go type of the data is implied by the record type alone
